@@ -136,6 +136,20 @@ CLAIMS = {
              "managers, only Exception subclasses considered, OSError allowed to propagate. Four groups of genuine defects repaired by "
              "six fix: commits. Trusted: " + TB,
         technique="contract-based deductive verification: exception-escape contracts (path-sensitive raises sets) + a functional loop-invariant proof of the framing sniffer; bounded fault injection as stand-in"),
+    "C05": dict(
+        category="proof", design="DESIGN.md section 7 C05",
+        text="Contract-based deductive proof on the real IWA codec (iwafile.py): IWACompressedChunk.to_buffer cuts ANY stream into "
+             "consecutive pieces of at most 64 KiB that cover it exactly and in order (loop invariant, termination), and the frame "
+             "expression's 3-byte length is lossless because len(payload) < 2**24 follows from the snappy bound (obligation, not "
+             "assumption); _decompress_all yields, for ANY well-framed file, exactly one piece per frame in order - so the decoded "
+             "stream does not depend on where it was cut - and raises ValueError exactly when a marker byte is not 0; "
+             "IWAArchiveSegment.to_buffer leaves every message_info.length equal to the serialised size of its object (header "
+             "lengths == message sizes), for any number of messages. Inverse property on real archives, unknown fields, merge "
+             "segments, snappy-shaped blocks: bounded stand-in over ~5 270 fixture archives and synthetic ones.",
+        note="Assumes: A-SNAPPY (compression bound; compress/uncompress opaque functions of the piece), A-PB (serialised length a "
+             "function of the object; Parse/Serialize inverse - exercised only by the bounded corpus run), ghost views for bytes and "
+             "piece lists, well-framedness as precondition of _decompress_all. from_buffer/segment parsing: bounded only. Trusted: " + TB,
+        technique="contract-based deductive verification (loop invariants over stream positions, Skolem frame positions) + bounded corpus/synthetic stand-in"),
 }
 NA_REASON = "check not built yet (build in progress; see DESIGN.md section 7 for the plan)"
 
